@@ -6,6 +6,16 @@ PUBCAP = ("pub", "pubsub")
 SUBCAP = ("sub", "pubsub")
 
 
+BIGI = 1 << 60
+
+
+def _accepted_between(A, c, lo, hi):
+    for e in c.ins:
+        if lo < e["i"] < hi and A._completed(e, c) and any(p.get("t") == "CONNACK" and p.get("rc") == 0 for p in A.inbound_pkts(e)):
+            return True
+    return False
+
+
 def _b(x):
     if x is None:
         return None
@@ -34,16 +44,28 @@ def c04(A):
     t_end = A.end["t"] if A.end else None
     late = A.cfg.late
     for c in A.conns.values():
+        # connect() attempts on this protocol, each with the CONNECT it wrote
+        attempts = []
         for call in c.connect_calls:
             ret = A.rets.get(call["i"])
             if ret is None or call["info"].get("invalid"):
                 continue
-            fresh = ((c.i_connect_write is None or c.i_connect_write > call["i"])
-                     and not c.lost_at(call["i"]) and call["phase"] == "open")
-            if not fresh:
+            pk = [e for e in c.pkts if e.get("api") == call["i"]]
+            attempts.append((call, ret, pk))
+        for n, (call, ret, pk) in enumerate(attempts):
+            later = [a[0]["i"] for a in attempts[n + 1:] if a[2]]      # later attempts that wrote a CONNECT
+            nxt = later[0] if later else BIGI
+            prev_connects = [e for e in c.pkts if e["pkt"] is not None and e["pkt"]["t"] == "CONNECT" and e["i"] < call["i"]]
+            # idle protocol: never connected, or idle again after a refused CONNACK; transport open
+            refused_before = [e for e in c.ins if e["i"] < call["i"] and A._completed(e, c)
+                              and any(p.get("t") == "CONNACK" and p.get("rc") for p in A.inbound_pkts(e))]
+            idle = (not prev_connects) or (refused_before and prev_connects[-1]["i"] < refused_before[-1]["i"]
+                                           and not _accepted_between(A, c, prev_connects[-1]["i"], call["i"]))
+            if not idle or c.lost_at(call["i"]) or call["phase"] != "open":
                 continue          # not an idle protocol: C14's business
             o.dec("connect_calls")
-            pk = [e for e in c.pkts if e.get("api") == call["i"]]
+            if prev_connects:
+                o.dec("reconnect_after_refusal")
             wr = [e for e in c.writes if call["i"] < e["i"] < ret["i"]]
             if "did" not in ret:
                 o.bad("connect-no-deferred", "connect() on an idle protocol returned %r" % (ret.get("raised") or ret.get("ret"),), call)
@@ -61,37 +83,48 @@ def c04(A):
                 if m:
                     o.bad("connect-fields", "CONNECT differs from arguments: " + m, call)
             k = call["info"]["keepalive"]
-            deadline = c.t_connect + (k or 10)
+            i_conn = pk[0]["i"]
+            deadline = pk[0]["t"] + (k or 10)
+            # the broker's answer to this attempt: first CONNACK delivered after its CONNECT (and before the next attempt)
+            answer = None
+            blown = []
+            for e in c.ins:
+                if not (i_conn < e["i"] < nxt):
+                    continue
+                acks = [p for p in A.inbound_pkts(e) if p.get("t") == "CONNACK"]
+                if not acks:
+                    continue
+                if A._completed(e, c):
+                    answer = (e, acks[0])
+                    break
+                blown.append(e)
+                break
             # ---- outcome
             if any(a["already"] for a in r.attempts) or len(r.fires) > 1:
                 o.bad("connect-deferred-twice", "connect() Deferred fired more than once", r.fires[-1] if r.fires else call)
-            if c.i_connack_ok is not None:
+            f = r.first_fire
+            if answer is not None and (f is None or f["i"] > answer[0]["i"]) and answer[1]["rc"] == 0:
                 o.dec("accepted")
-                f = r.first_fire
-                if f is None or f["step"] != c.step_connack_ok or not f["ok"]:
+                e, p = answer
+                if f is None or f["step"] != e["step"] or not f["ok"]:
                     o.bad("accept-outcome", "CONNACK rc=0 but connect() Deferred %s"
-                          % ("did not fire in that step" if f is None or f["step"] != c.step_connack_ok else "failed: " + f["etype"]),
-                          c.step_connack_ok)
-                elif f["value"] is not c.sp:
-                    o.bad("accept-value", "connect() Deferred value %r, session-present was %r" % (f["value"], c.sp), f)
-            elif c.i_refused is not None:
+                          % ("did not fire in that step" if f is None or f["step"] != e["step"] else "failed: " + f["etype"]), e)
+                elif f["value"] is not p["session"]:
+                    o.bad("accept-value", "connect() Deferred value %r, session-present was %r" % (f["value"], p["session"]), f)
+            elif answer is not None and (f is None or f["i"] > answer[0]["i"]):
                 o.dec("refused")
-                step = A.trace[c.i_refused]["step"]
-                f = r.first_fire
+                e, p = answer
+                step = e["step"]
                 if f is None or f["step"] != step or f["ok"] or f["etype"] != "MQTTStateError":
                     o.bad("refuse-outcome", "CONNACK rc=%d but connect() Deferred: %s" % (
-                        c.rc, "no fire in that step" if f is None or f["step"] != step else ("success" if f["ok"] else f["etype"])), step)
+                        p["rc"], "no fire in that step" if f is None or f["step"] != step else ("success" if f["ok"] else f["etype"])), step)
                 sn = A.snaps.get(step)
                 st = sn["states"].get(c.a) if sn else None
                 if st is not None and st[3] == c.idx and st[2] == "open" and st[1] is False:
                     o.bad("refuse-not-idle", "protocol is %s after a refused CONNACK" % st[0], step)
             else:
-                # a CONNACK that blew up inside the library?
-                blown = [e for e in c.ins if e["i"] > c.i_connect_write and not A._completed(e, c)
-                         and any(p.get("t") == "CONNACK" for p in A.inbound_pkts(e))]
                 if t_end is not None and deadline + late <= t_end:
                     o.dec("no_connack")
-                    f = r.first_fire
                     if f is None:
                         if blown:
                             rcv = [p["rc"] for p in A.inbound_pkts(blown[0]) if p.get("t") == "CONNACK"][0]
@@ -100,18 +133,19 @@ def c04(A):
                         else:
                             o.bad("connect-deferred-never-fires", "no CONNACK, deadline t=%.3f passed, Deferred unfired" % deadline, call)
                     else:
-                        open_until = min(x for x in (c.i_close_req, c.i_lost, 1 << 60) if x is not None)
+                        open_until = min(x for x in (c.i_close_req, c.i_lost, BIGI) if x is not None)
                         if open_until > f["i"] and not blown:
                             # undisturbed handshake: this must be the timeout, on time, closing the transport
                             if f["ok"] or f["etype"] != "MQTTTimeoutError":
                                 o.bad("timeout-outcome", "no CONNACK; Deferred fired with %s" % (f.get("etype") or "success"), f)
-                            elif abs(f["t"] - (deadline + late)) > 1e-6:
-                                o.bad("timeout-time", "CONNACK timeout fired at t=%.3f, expected %.3f (keepalive=%d)" % (f["t"], deadline, k), f)
+                            elif abs(f["t"] - (deadline + late)) > 2e-6:
+                                o.bad("timeout-time/%s" % ("after-refusal" if prev_connects else "first"),
+                                      "CONNACK timeout fired at t=%.3f, expected %.3f (keepalive=%d)" % (f["t"], deadline, k), f)
                             else:
                                 closes = [x for x in c.tcalls if x["step"] == f["step"]]
                                 if not closes:
                                     o.bad("timeout-no-close", "CONNACK timeout did not close the transport", f)
-                        elif f["t"] > deadline + late + 1e-6 or f["ok"]:
+                        elif f["t"] > deadline + late + 2e-6 or f["ok"]:
                             o.bad("handshake-loss-outcome", "connection lost in mid-handshake; Deferred %s at t=%.3f (deadline %.3f)"
                                   % ("succeeded" if f["ok"] else "failed", f["t"], deadline), f)
         # ---- after any loss: idle, and onDisconnection exactly once with the reason
@@ -133,7 +167,7 @@ def c04(A):
                 else:
                     # pending requests must have been dealt with before the notification
                     for r in A.reqs.values():
-                        if r.conn == c.idx and r.op in ("publish", "subscribe", "unsubscribe") and c.clean \
+                        if r.conn == c.idx and r.op in ("publish", "subscribe", "unsubscribe") and c.clean and c.n_connects == 1 \
                                 and not r.called_at_return and r.i_ret < c.i_lost:
                             if not r.fires or r.fires[0]["i"] > cbs[0]["i"]:
                                 o.bad("ondisconnection-before-cleanup",
